@@ -379,6 +379,9 @@ class ItDown(StageContract):
             for d in range(n):
                 out.append(dict(n=n, d=d, nlevels=2, nsweeps=[1, 1]))
                 out.append(dict(n=n, d=d, nlevels=3, nsweeps=[1, 2, 1]))
+        # two and three middle levels: level indices other than 1 occur only here
+        out.append(dict(n=2, d=0, nlevels=4, nsweeps=[1, 2, 1, 1]))
+        out.append(dict(n=1, d=0, nlevels=5, nsweeps=[1, 1, 2, 3, 1]))
         return out
 
     def build(self, inst, mk):
